@@ -1,66 +1,950 @@
-// scratch probe (to be replaced)
+// Driver for C30 (printer round-trip mode reproduces the source) and C31 (formatting preserves meaning and is
+// idempotent).  Cases are layouts exported by spec/MCPrintLayout.tla: a token skeleton, its default trivia, the
+// trivia table and the gap classes come from the specification ("skel" records); a case ("lay" record) is a set
+// of placements <<gap, trivia kind>> plus the feature vector the specification computed for it.  The driver only
+// concatenates strings the specification handed over, runs the real printer, and compares.
+//
+//	printer -skel skels.jsonl -props c30,c31 [-j N] < cases.jsonl     one JSON result line per failing class instance
+//	printer -corpus < {key,text} lines                                 free files (no layout vector): diagnostics only
+//
+// A failing case is MINIMISED: every placement is removed in turn (back to the default trivia) while the same
+// check keeps failing; the class is built from the features of the minimal placement set and from the way the
+// output differs, then the remaining placements are examined on their own so that one known failure cannot hide
+// another one in the same case.
 package main
 
 import (
 	"bufio"
+	"bytes"
+	"context"
 	"encoding/json"
+	"flag"
 	"fmt"
 	"os"
+	"runtime"
+	"sort"
+	"strconv"
 	"strings"
+	"sync"
+	"sync/atomic"
 
+	"google.golang.org/protobuf/encoding/protowire"
+	"google.golang.org/protobuf/proto"
+	"google.golang.org/protobuf/types/descriptorpb"
+
+	"github.com/bufbuild/protocompile"
+	"github.com/bufbuild/protocompile/experimental/ast"
 	"github.com/bufbuild/protocompile/experimental/ast/printer"
-	"github.com/bufbuild/protocompile/experimental/parser"
+	expparser "github.com/bufbuild/protocompile/experimental/parser"
 	"github.com/bufbuild/protocompile/experimental/report"
 	"github.com/bufbuild/protocompile/experimental/seq"
 	"github.com/bufbuild/protocompile/experimental/source"
+	"github.com/bufbuild/protocompile/internal/zzverif/common/featgen"
+	"github.com/bufbuild/protocompile/protoutil"
+	"github.com/bufbuild/protocompile/reporter"
 )
 
-type in struct {
-	Key  string `json:"key"`
-	Text string `json:"text"`
+// ---------------------------------------------------------------------------------------------
+// records from the specification
+
+type skelRec struct {
+	Skel     string            `json:"skel"`
+	Toks     []string          `json:"toks"`
+	Defaults []string          `json:"defaults"` // index gap
+	Classes  []string          `json:"classes"`  // index gap
+	Items    []string          `json:"items"`
+	Kinds    []string          `json:"kinds"`
+	Deps     []string          `json:"deps"`
+	Trivia   map[string]string `json:"trivia"`
+	Aux      [][]string        `json:"aux"`
+
+	aux      map[string]string
+	baseDesc *descriptorpb.FileDescriptorProto
+	baseText string
 }
 
-func main() {
-	sc := bufio.NewScanner(os.Stdin)
-	sc.Buffer(make([]byte, 1<<20), 1<<26)
-	for sc.Scan() {
-		var c in
-		if err := json.Unmarshal(sc.Bytes(), &c); err != nil {
-			panic(err)
+type placement struct {
+	Gap  int
+	Kind string
+}
+
+func (p *placement) UnmarshalJSON(b []byte) error {
+	var raw []json.RawMessage
+	if err := json.Unmarshal(b, &raw); err != nil || len(raw) != 2 {
+		return fmt.Errorf("bad placement %s", b)
+	}
+	if err := json.Unmarshal(raw[0], &p.Gap); err != nil {
+		return err
+	}
+	return json.Unmarshal(raw[1], &p.Kind)
+}
+
+func (p placement) MarshalJSON() ([]byte, error) {
+	return json.Marshal([]any{p.Gap, p.Kind})
+}
+
+type layRec struct {
+	T     string      `json:"t"`
+	Skel  string      `json:"skel"`
+	Pl    []placement `json:"pl"`
+	Feat  []string    `json:"feat"`
+	Items []string    `json:"items,omitempty"`
+	// binding self-test: if set, the expectation is rendered from these placements instead of Pl
+	ExpPl []placement `json:"exp_pl,omitempty"`
+}
+
+type result struct {
+	Prop   string      `json:"prop"`
+	Class  string      `json:"class"`
+	Skel   string      `json:"skel"`
+	Pl     []placement `json:"pl"`
+	Min    []placement `json:"min"`
+	Detail string      `json:"detail"`
+}
+
+var (
+	outMu sync.Mutex
+	enc   *json.Encoder
+)
+
+func emit(r result) {
+	outMu.Lock()
+	defer outMu.Unlock()
+	_ = enc.Encode(r)
+}
+
+func decodeEsc(s string) string {
+	for {
+		i := strings.Index(s, "<U+")
+		if i < 0 {
+			return s
 		}
-		errs := &report.Report{}
-		file, ok := parser.Parse("x.proto", source.NewFile("x.proto", c.Text), errs)
-		nerr := 0
-		for _, d := range errs.Diagnostics {
-			if d.Level() <= report.Error {
-				nerr++
+		j := strings.Index(s[i:], ">")
+		if j < 0 {
+			return s
+		}
+		n, err := strconv.ParseInt(s[i+3:i+j], 16, 32)
+		if err != nil {
+			return s
+		}
+		s = s[:i] + string(rune(n)) + s[i+j+1:]
+	}
+}
+
+func sortPl(pl []placement) []placement {
+	out := append([]placement(nil), pl...)
+	sort.Slice(out, func(i, j int) bool { return out[i].Gap < out[j].Gap })
+	return out
+}
+
+// render concatenates trivia(0) t1 trivia(1) ... tn trivia(n); returns the text and the byte offset where the
+// last gap (the file's trailing trivia) starts.
+func (s *skelRec) render(pl []placement) (string, int) {
+	over := map[int]string{}
+	for _, p := range pl {
+		over[p.Gap] = p.Kind
+	}
+	var sb strings.Builder
+	eof := 0
+	for g := 0; g <= len(s.Toks); g++ {
+		if g > 0 {
+			sb.WriteString(s.Toks[g-1])
+		}
+		k, ok := over[g]
+		if !ok {
+			k = s.Defaults[g]
+		}
+		t, ok := s.Trivia[k]
+		if !ok {
+			panic("unknown trivia kind " + k)
+		}
+		if g == len(s.Toks) {
+			eof = sb.Len()
+		}
+		sb.WriteString(decodeEsc(t))
+	}
+	return sb.String(), eof
+}
+
+func (s *skelRec) features(pl []placement) []string {
+	set := map[string]bool{}
+	for _, p := range pl {
+		set[s.Classes[p.Gap]+"="+p.Kind] = true
+	}
+	out := make([]string, 0, len(set))
+	for f := range set {
+		out = append(out, f)
+	}
+	sort.Strings(out)
+	return out
+}
+
+// ---------------------------------------------------------------------------------------------
+// a small scanner of .proto text (harness side, used only to DESCRIBE how two texts differ)
+
+type lexItem struct {
+	kind byte // 't' token, 'c' comment
+	text string
+}
+
+func scan(text string) []lexItem {
+	var out []lexItem
+	i := 0
+	n := len(text)
+	for i < n {
+		c := text[i]
+		switch {
+		case c == ' ' || c == '\t' || c == '\n' || c == '\r' || c == '\f' || c == '\v':
+			i++
+		case strings.HasPrefix(text[i:], "\xef\xbb\xbf"):
+			i += 3
+		case strings.HasPrefix(text[i:], "//"):
+			j := strings.IndexByte(text[i:], '\n')
+			if j < 0 {
+				j = n - i
+			}
+			out = append(out, lexItem{'c', strings.TrimRight(text[i:i+j], " \t\r")})
+			i += j
+		case strings.HasPrefix(text[i:], "/*"):
+			j := strings.Index(text[i+2:], "*/")
+			if j < 0 {
+				j = n - i - 4
+			}
+			out = append(out, lexItem{'c', text[i : i+2+j+2]})
+			i += 2 + j + 2
+		case c == '"' || c == '\'':
+			j := i + 1
+			for j < n && text[j] != c && text[j] != '\n' {
+				if text[j] == '\\' {
+					j++
+				}
+				j++
+			}
+			if j < n {
+				j++
+			}
+			if j > n {
+				j = n
+			}
+			out = append(out, lexItem{'t', text[i:j]})
+			i = j
+		case isWord(c):
+			j := i
+			for j < n && (isWord(text[j]) || (text[j] == '.' && j > i && isDigit(text[i]))) {
+				j++
+			}
+			out = append(out, lexItem{'t', text[i:j]})
+			i = j
+		default:
+			out = append(out, lexItem{'t', text[i : i+1]})
+			i++
+		}
+	}
+	return out
+}
+
+func isDigit(c byte) bool { return c >= '0' && c <= '9' }
+func isWord(c byte) bool {
+	return c == '_' || isDigit(c) || (c >= 'a' && c <= 'z') || (c >= 'A' && c <= 'Z') || c >= 0x80
+}
+
+func project(items []lexItem, kind byte) []string {
+	var out []string
+	for _, it := range items {
+		if it.kind == kind {
+			out = append(out, it.text)
+		}
+	}
+	return out
+}
+
+func eqStrs(a, b []string) bool {
+	if len(a) != len(b) {
+		return false
+	}
+	for i := range a {
+		if a[i] != b[i] {
+			return false
+		}
+	}
+	return true
+}
+
+func sortedCopy(a []string) []string {
+	b := append([]string(nil), a...)
+	sort.Strings(b)
+	return b
+}
+
+// normalise a comment for comparison across formatting (block comment interiors may be re-indented)
+func normComment(c string) string {
+	return strings.Join(strings.Fields(c), " ")
+}
+
+// diffMode describes how got differs from want.
+func diffMode(want, got string) string {
+	w, g := scan(want), scan(got)
+	wt, gt := project(w, 't'), project(g, 't')
+	if !eqStrs(wt, gt) {
+		switch {
+		case len(gt) < len(wt):
+			return "tokens-lost"
+		case len(gt) > len(wt):
+			return "tokens-added"
+		}
+		return "tokens-changed"
+	}
+	wc, gc := project(w, 'c'), project(g, 'c')
+	for i := range wc {
+		wc[i] = normComment(wc[i])
+	}
+	for i := range gc {
+		gc[i] = normComment(gc[i])
+	}
+	if !eqStrs(wc, gc) {
+		switch {
+		case eqStrs(sortedCopy(wc), sortedCopy(gc)):
+			return "comments-reordered"
+		case len(gc) < len(wc):
+			return "comment-lost"
+		case len(gc) > len(wc):
+			return "comment-added"
+		}
+		return "comment-text"
+	}
+	// same tokens, same comments: interleaving?
+	if len(w) == len(g) {
+		same := true
+		for i := range w {
+			if w[i].kind != g[i].kind {
+				same = false
+				break
 			}
 		}
-		got, _ := printer.PrintFile(printer.Options{}, file)
-		var sb strings.Builder
-		for d := range seq.Values(file.Decls()) {
-			sb.WriteString(printer.Print(printer.Options{}, d))
+		if !same {
+			return "comment-moved"
 		}
-		fmt.Printf("%s ok=%v errs=%d rt=%v prefix=%v\n", c.Key, ok, nerr, got == c.Text, strings.HasPrefix(c.Text, sb.String()))
-		if got != c.Text {
-			fmt.Printf("  src=%q\n  got=%q\n", c.Text, got)
+	}
+	if strings.Count(want, "\n") != strings.Count(got, "\n") {
+		return "ws-lines"
+	}
+	return "ws-horizontal"
+}
+
+func excerpt(want, got string) string {
+	p := 0
+	for p < len(want) && p < len(got) && want[p] == got[p] {
+		p++
+	}
+	s := 0
+	for s < len(want)-p && s < len(got)-p && want[len(want)-1-s] == got[len(got)-1-s] {
+		s++
+	}
+	from := p - 30
+	if from < 0 {
+		from = 0
+	}
+	wto, gto := len(want)-s+15, len(got)-s+15
+	if wto > len(want) {
+		wto = len(want)
+	}
+	if gto > len(got) {
+		gto = len(got)
+	}
+	return fmt.Sprintf("at byte %d: want %q got %q", p, want[from:wto], got[from:gto])
+}
+
+func onlyTrivia(s string) bool {
+	return len(project(scan(s), 't')) == 0
+}
+
+// ---------------------------------------------------------------------------------------------
+// the real code
+
+func expParse(text string) (file fileT, nerr int, first string) {
+	errs := &report.Report{}
+	f, _ := expparser.Parse("main.proto", source.NewFile("main.proto", text), errs)
+	for _, d := range errs.Diagnostics {
+		if d.Level() <= report.Error {
+			if nerr == 0 {
+				first = fmt.Sprint(d.Message())
+			}
+			nerr++
 		}
-		if !strings.HasPrefix(c.Text, sb.String()) {
-			fmt.Printf("  cat=%q\n", sb.String())
+	}
+	return f, nerr, first
+}
+
+var presets = []struct {
+	name string
+	opts printer.Options
+}{
+	{"default", printer.Options{Format: true, Formatting: printer.Default()}},
+	{"legacy", printer.Options{Format: true, Formatting: printer.Legacy()}},
+}
+
+func stableCompile(aux map[string]string, text string) (fd *descriptorpb.FileDescriptorProto, err error) {
+	defer func() {
+		if r := recover(); r != nil {
+			err = fmt.Errorf("panic: %v", r)
 		}
-		for _, pr := range []struct {
-			n string
-			f printer.Formatting
-		}{{"default", printer.Default()}, {"legacy", printer.Legacy()}} {
-			o := printer.Options{Format: true, Formatting: pr.f}
-			f1, _ := printer.PrintFile(o, file)
-			errs2 := &report.Report{}
-			file2, _ := parser.Parse("x.proto", source.NewFile("x.proto", f1), errs2)
-			f2, _ := printer.PrintFile(o, file2)
-			fmt.Printf("  %s idem=%v f1=%q\n", pr.n, f1 == f2, f1)
-			if f1 != f2 {
-				fmt.Printf("    f2=%q\n", f2)
+	}()
+	files := map[string]string{"main.proto": text}
+	for k, v := range aux {
+		files[k] = v
+	}
+	comp := protocompile.Compiler{
+		Resolver: protocompile.WithStandardImports(&protocompile.SourceResolver{
+			Accessor: protocompile.SourceAccessorFromMap(files),
+		}),
+		MaxParallelism: 1,
+		Reporter:       reporter.NewReporter(nil, func(reporter.ErrorWithPos) {}),
+	}
+	res, err := comp.Compile(context.Background(), "main.proto")
+	if err != nil {
+		return nil, err
+	}
+	return protoutil.ProtoFromFileDescriptor(res[0]), nil
+}
+
+func noSI(fd *descriptorpb.FileDescriptorProto) *descriptorpb.FileDescriptorProto {
+	c := proto.Clone(fd).(*descriptorpb.FileDescriptorProto)
+	c.SourceCodeInfo = nil
+	return c
+}
+
+// descDiff: "" if equal; otherwise which top-level fields of FileDescriptorProto differ.
+func descDiff(a, b *descriptorpb.FileDescriptorProto) string {
+	ab, bb := featgen.DetBytes(noSI(a)), featgen.DetBytes(noSI(b))
+	if bytes.Equal(ab, bb) {
+		return ""
+	}
+	// dependency order only?
+	na, nb := normDeps(a), normDeps(b)
+	if bytes.Equal(featgen.DetBytes(na), featgen.DetBytes(nb)) {
+		return "dependency-order"
+	}
+	fa, fb := topFields(featgen.DetBytes(na)), topFields(featgen.DetBytes(nb))
+	names := map[string]bool{}
+	for num, v := range fa {
+		if !bytes.Equal(v, fb[num]) {
+			names[fieldName(num)] = true
+		}
+	}
+	for num := range fb {
+		if _, ok := fa[num]; !ok {
+			names[fieldName(num)] = true
+		}
+	}
+	var ns []string
+	for n := range names {
+		ns = append(ns, n)
+	}
+	sort.Strings(ns)
+	return "descriptor(" + strings.Join(ns, ",") + ")"
+}
+
+func fieldName(num protowire.Number) string {
+	fd := (&descriptorpb.FileDescriptorProto{}).ProtoReflect().Descriptor().Fields().ByNumber(num)
+	if fd == nil {
+		return fmt.Sprint(num)
+	}
+	return string(fd.Name())
+}
+
+func topFields(b []byte) map[protowire.Number][]byte {
+	out := map[protowire.Number][]byte{}
+	for len(b) > 0 {
+		num, typ, n := protowire.ConsumeTag(b)
+		if n < 0 {
+			break
+		}
+		m := protowire.ConsumeFieldValue(num, typ, b[n:])
+		if m < 0 {
+			break
+		}
+		out[num] = append(out[num], b[:n+m]...)
+		b = b[n+m:]
+	}
+	return out
+}
+
+// normDeps sorts the dependency list (remapping public / weak indexes) and drops source info.
+func normDeps(fd *descriptorpb.FileDescriptorProto) *descriptorpb.FileDescriptorProto {
+	c := noSI(fd)
+	type dep struct {
+		name         string
+		public, weak bool
+	}
+	ds := make([]dep, len(c.Dependency))
+	for i, d := range c.Dependency {
+		ds[i].name = d
+	}
+	for _, i := range c.PublicDependency {
+		ds[i].public = true
+	}
+	for _, i := range c.WeakDependency {
+		ds[i].weak = true
+	}
+	sort.Slice(ds, func(i, j int) bool { return ds[i].name < ds[j].name })
+	c.Dependency, c.PublicDependency, c.WeakDependency = nil, nil, nil
+	for i, d := range ds {
+		c.Dependency = append(c.Dependency, d.name)
+		if d.public {
+			c.PublicDependency = append(c.PublicDependency, int32(i))
+		}
+		if d.weak {
+			c.WeakDependency = append(c.WeakDependency, int32(i))
+		}
+	}
+	return c
+}
+
+// ---------------------------------------------------------------------------------------------
+// checks
+
+type failure struct {
+	mode   string
+	detail string
+}
+
+type outcome struct {
+	harness string             // non-empty: the case is not a valid case (specification / renderer problem)
+	fails   map[string]failure // check name -> failure
+}
+
+var (
+	doC30, doC31 bool
+	nEval        atomic.Int64
+	nPrint       atomic.Int64
+	nCompile     atomic.Int64
+)
+
+func guard(what string, f func()) (msg string) {
+	defer func() {
+		if r := recover(); r != nil {
+			msg = fmt.Sprintf("panic in %s: %v", what, r)
+		}
+	}()
+	f()
+	return ""
+}
+
+// evaluate runs every selected check on text.  expect is the text round-trip mode has to reproduce (= text except
+// in the binding self-test); eofStart is where the file's trailing trivia begins in expect.
+func evaluate(s *skelRec, text, expect string, eofStart int) outcome {
+	nEval.Add(1)
+	o := outcome{fails: map[string]failure{}}
+	file, nerr, first := expParse(text)
+	if nerr > 0 {
+		o.harness = "experimental parser rejects the layout: " + first
+		return o
+	}
+	if doC30 {
+		var got string
+		if msg := guard("PrintFile", func() {
+			var err error
+			got, err = printer.PrintFile(printer.Options{}, file)
+			if err != nil {
+				panic(err)
+			}
+		}); msg != "" {
+			o.fails["roundtrip"] = failure{"panic", msg}
+		} else if got != expect {
+			o.fails["roundtrip"] = failure{diffMode(expect, got), excerpt(expect, got)}
+		}
+		nPrint.Add(1)
+		var cat strings.Builder
+		if msg := guard("Print", func() {
+			for d := range seq.Values(file.Decls()) {
+				cat.WriteString(printer.Print(printer.Options{}, d))
+			}
+		}); msg != "" {
+			o.fails["printcat"] = failure{"panic", msg}
+		} else {
+			c := cat.String()
+			// must be: expect minus (a suffix of) the file's trailing trivia
+			okCat := strings.HasPrefix(expect, c) && len(c) >= eofStart
+			if !okCat {
+				// the same deviation as PrintFile's is one defect, not two
+				if _, rtFailed := o.fails["roundtrip"]; rtFailed && strings.HasPrefix(got, c) && onlyTrivia(got[len(c):]) {
+					// subsumed
+				} else {
+					ref := expect[:eofStart]
+					if len(c) > eofStart && len(c) <= len(expect) {
+						ref = expect[:len(c)]
+					}
+					o.fails["printcat"] = failure{diffMode(ref, c), excerpt(ref, c)}
+				}
 			}
 		}
 	}
+	if doC31 {
+		for _, pr := range presets {
+			var f1, f2 string
+			msg := guard("format", func() {
+				var err error
+				f1, err = printer.PrintFile(pr.opts, file)
+				if err != nil {
+					panic(err)
+				}
+			})
+			nPrint.Add(1)
+			if msg != "" {
+				o.fails["meaning:"+pr.name] = failure{"panic", msg}
+				continue
+			}
+			file2, nerr2, first2 := expParse(f1)
+			if nerr2 > 0 {
+				o.fails["meaning:"+pr.name] = failure{"formatted-does-not-parse", first2 + " in " + strconv.Quote(f1)}
+				continue
+			}
+			msg = guard("format twice", func() {
+				var err error
+				f2, err = printer.PrintFile(pr.opts, file2)
+				if err != nil {
+					panic(err)
+				}
+			})
+			if msg != "" {
+				o.fails["idempotence:"+pr.name] = failure{"panic", msg}
+			} else if f1 != f2 {
+				o.fails["idempotence:"+pr.name] = failure{diffMode(f1, f2), excerpt(f1, f2)}
+			}
+			fd, err := stableCompile(s.aux, f1)
+			nCompile.Add(1)
+			if err != nil {
+				// is the case itself valid?
+				if _, err0 := stableCompile(s.aux, text); err0 != nil {
+					o.harness = "stable compiler rejects the layout: " + err0.Error()
+					return o
+				}
+				o.fails["meaning:"+pr.name] = failure{"formatted-does-not-compile", err.Error() + " in " + strconv.Quote(f1)}
+				continue
+			}
+			if d := descDiff(s.baseDesc, fd); d != "" {
+				fd0, err0 := stableCompile(s.aux, text)
+				if err0 != nil {
+					o.harness = "stable compiler rejects the layout: " + err0.Error()
+					return o
+				}
+				if d0 := descDiff(s.baseDesc, fd0); d0 != "" {
+					o.harness = "layout changes the descriptor: " + d0
+					return o
+				}
+				o.fails["meaning:"+pr.name] = failure{d, d + " after formatting to " + strconv.Quote(f1)}
+			}
+		}
+	}
+	return o
+}
+
+func propOf(check string) string {
+	if check == "roundtrip" || check == "printcat" {
+		return "C30"
+	}
+	return "C31"
+}
+
+// ---------------------------------------------------------------------------------------------
+// one case
+
+type caseRun struct {
+	s    *skelRec
+	memo map[string]outcome
+}
+
+func plKey(pl []placement) string {
+	pl = sortPl(pl)
+	var sb strings.Builder
+	for _, p := range pl {
+		fmt.Fprintf(&sb, "%d=%s,", p.Gap, p.Kind)
+	}
+	return sb.String()
+}
+
+func (c *caseRun) eval(pl []placement) outcome {
+	k := plKey(pl)
+	if o, ok := c.memo[k]; ok {
+		return o
+	}
+	text, eof := c.s.render(pl)
+	o := evaluate(c.s, text, text, eof)
+	c.memo[k] = o
+	return o
+}
+
+func without(pl []placement, i int) []placement {
+	out := make([]placement, 0, len(pl)-1)
+	out = append(out, pl[:i]...)
+	return append(out, pl[i+1:]...)
+}
+
+func minus(pl, sub []placement) []placement {
+	var out []placement
+	for _, p := range pl {
+		in := false
+		for _, q := range sub {
+			if p == q {
+				in = true
+			}
+		}
+		if !in {
+			out = append(out, p)
+		}
+	}
+	return out
+}
+
+var harnessErrs atomic.Int64
+
+func runCase(s *skelRec, lc *layRec) {
+	c := &caseRun{s: s, memo: map[string]outcome{}}
+	pl := sortPl(lc.Pl)
+	// the feature vector the specification computed must be the one the classes give
+	if f := c.s.features(pl); !eqStrs(f, sortedCopy(lc.Feat)) {
+		harnessErrs.Add(1)
+		emit(result{Prop: "HARNESS", Class: "HARNESS:features", Skel: s.Skel, Pl: pl, Detail: fmt.Sprintf("spec %v driver %v", lc.Feat, f)})
+		return
+	}
+	text, eof := s.render(pl)
+	if lc.Items != nil && strings.Join(decodeAll(lc.Items), "") != text {
+		harnessErrs.Add(1)
+		emit(result{Prop: "HARNESS", Class: "HARNESS:items", Skel: s.Skel, Pl: pl, Detail: "rendered text differs from the specification's Items"})
+		return
+	}
+	var o outcome
+	if lc.ExpPl != nil {
+		exp, eof2 := s.render(lc.ExpPl)
+		o = evaluate(s, text, exp, eof2)
+	} else {
+		o = evaluate(s, text, text, eof)
+		c.memo[plKey(pl)] = o
+	}
+	if o.harness != "" {
+		harnessErrs.Add(1)
+		emit(result{Prop: "HARNESS", Class: "HARNESS:invalid-case", Skel: s.Skel, Pl: pl, Detail: o.harness + " in " + strconv.Quote(text)})
+		return
+	}
+	checks := make([]string, 0, len(o.fails))
+	for ch := range o.fails {
+		checks = append(checks, ch)
+	}
+	sort.Strings(checks)
+	for _, ch := range checks {
+		if lc.ExpPl != nil {
+			f := o.fails[ch]
+			emit(result{Prop: propOf(ch), Class: ch + ":" + f.mode + ":selftest", Skel: s.Skel, Pl: pl, Min: pl, Detail: f.detail})
+			continue
+		}
+		rest := pl
+		for round := 0; ; round++ {
+			cur := rest
+			for i := 0; i < len(cur); {
+				try := without(cur, i)
+				ot := c.eval(try)
+				if ot.harness != "" {
+					i++
+					continue
+				}
+				if _, still := ot.fails[ch]; still {
+					cur = try
+				} else {
+					i++
+				}
+			}
+			f := c.eval(cur).fails[ch]
+			feats := strings.Join(s.features(cur), "+")
+			if len(cur) == 0 {
+				feats = "default-layout(" + s.Skel + ")"
+			}
+			emit(result{Prop: propOf(ch), Class: ch + ":" + f.mode + ":" + feats, Skel: s.Skel, Pl: pl, Min: cur, Detail: f.detail})
+			if len(cur) == 0 {
+				break
+			}
+			rest = minus(rest, cur)
+			if len(rest) == 0 {
+				break
+			}
+			or := c.eval(rest)
+			if _, still := or.fails[ch]; !still || or.harness != "" {
+				break
+			}
+		}
+	}
+}
+
+func decodeAll(items []string) []string {
+	out := make([]string, len(items))
+	for i, s := range items {
+		out[i] = decodeEsc(s)
+	}
+	return out
+}
+
+// prepare a skeleton: cross-check the renderer and the skeleton data against the specification
+func (s *skelRec) prepare() error {
+	s.aux = map[string]string{}
+	for _, a := range s.Aux {
+		s.aux[a[0]] = a[1]
+	}
+	if len(s.Defaults) != len(s.Toks)+1 || len(s.Classes) != len(s.Toks)+1 {
+		return fmt.Errorf("skeleton %s: table sizes", s.Skel)
+	}
+	text, _ := s.render(nil)
+	if strings.Join(decodeAll(s.Items), "") != text {
+		return fmt.Errorf("skeleton %s: rendered default layout differs from the specification's Items", s.Skel)
+	}
+	// the scanner used for describing differences must see exactly the skeleton's tokens
+	if toks := project(scan(text), 't'); !eqStrs(toks, s.Toks) {
+		return fmt.Errorf("skeleton %s: scanner tokens %q differ from skeleton tokens", s.Skel, toks)
+	}
+	fd, err := stableCompile(s.aux, text)
+	if err != nil {
+		return fmt.Errorf("skeleton %s does not compile: %v\n%s", s.Skel, err, text)
+	}
+	got := featgen.MeasuredKinds(fd)
+	for _, k := range s.Kinds {
+		if !got[k] {
+			return fmt.Errorf("skeleton %s: element kind %s missing in the compiled descriptor", s.Skel, k)
+		}
+	}
+	if strings.Join(fd.Dependency, ",") != strings.Join(s.Deps, ",") {
+		return fmt.Errorf("skeleton %s: dependencies %v, specification says %v", s.Skel, fd.Dependency, s.Deps)
+	}
+	if _, nerr, first := expParse(text); nerr > 0 {
+		return fmt.Errorf("skeleton %s: experimental parser: %s", s.Skel, first)
+	}
+	s.baseDesc = fd
+	s.baseText = text
+	return nil
+}
+
+// ---------------------------------------------------------------------------------------------
+
+type fileT = *ast.File
+
+func corpus() {
+	sc := bufio.NewScanner(os.Stdin)
+	sc.Buffer(make([]byte, 1<<20), 1<<26)
+	doC30, doC31 = true, true
+	for sc.Scan() {
+		var c struct {
+			Key  string            `json:"key"`
+			Text string            `json:"text"`
+			Aux  map[string]string `json:"aux"`
+		}
+		if err := json.Unmarshal(sc.Bytes(), &c); err != nil {
+			panic(err)
+		}
+		s := &skelRec{Skel: c.Key, aux: c.Aux}
+		fd, err := stableCompile(c.Aux, c.Text)
+		if err != nil {
+			fmt.Printf("%s: does not compile: %v\n", c.Key, err)
+			doC31 = false
+		} else {
+			s.baseDesc = fd
+			doC31 = true
+		}
+		trimmed := strings.TrimRight(c.Text, " \t\r\n")
+		o := evaluate(s, c.Text, c.Text, len(trimmed))
+		if o.harness != "" {
+			fmt.Printf("%s: INVALID %s\n", c.Key, o.harness)
+			continue
+		}
+		var ks []string
+		for k := range o.fails {
+			ks = append(ks, k)
+		}
+		sort.Strings(ks)
+		fmt.Printf("%s: %d failing checks\n", c.Key, len(ks))
+		for _, k := range ks {
+			fmt.Printf("   %s:%s  %s\n", k, o.fails[k].mode, o.fails[k].detail)
+		}
+	}
+}
+
+func main() {
+	skelPath := flag.String("skel", "", "skeleton records (JSON lines)")
+	props := flag.String("props", "c30,c31", "which properties to check")
+	jobs := flag.Int("j", 0, "worker goroutines")
+	corp := flag.Bool("corpus", false, "free files on stdin")
+	flag.Parse()
+	enc = json.NewEncoder(os.Stdout)
+	enc.SetEscapeHTML(false)
+	if *corp {
+		corpus()
+		return
+	}
+	doC30 = strings.Contains(*props, "c30")
+	doC31 = strings.Contains(*props, "c31")
+	skels := map[string]*skelRec{}
+	fh, err := os.Open(*skelPath)
+	if err != nil {
+		fmt.Fprintln(os.Stderr, err)
+		os.Exit(3)
+	}
+	sc := bufio.NewScanner(fh)
+	sc.Buffer(make([]byte, 1<<20), 1<<26)
+	for sc.Scan() {
+		s := &skelRec{}
+		if err := json.Unmarshal(sc.Bytes(), s); err != nil {
+			fmt.Fprintln(os.Stderr, "bad skeleton record:", err)
+			os.Exit(3)
+		}
+		if err := s.prepare(); err != nil {
+			emit(result{Prop: "HARNESS", Class: "HARNESS:skeleton", Skel: s.Skel, Detail: err.Error()})
+			harnessErrs.Add(1)
+			continue
+		}
+		skels[s.Skel] = s
+	}
+	fh.Close()
+
+	n := *jobs
+	if n <= 0 {
+		n = runtime.NumCPU() / 2
+		if n > 8 {
+			n = 8
+		}
+		if n < 1 {
+			n = 1
+		}
+	}
+	ch := make(chan *layRec, 256)
+	var wg sync.WaitGroup
+	var nCases atomic.Int64
+	for i := 0; i < n; i++ {
+		wg.Add(1)
+		go func() {
+			defer wg.Done()
+			for lc := range ch {
+				s := skels[lc.Skel]
+				if s == nil {
+					harnessErrs.Add(1)
+					emit(result{Prop: "HARNESS", Class: "HARNESS:unknown-skeleton", Skel: lc.Skel})
+					continue
+				}
+				runCase(s, lc)
+				nCases.Add(1)
+			}
+		}()
+	}
+	in := bufio.NewScanner(os.Stdin)
+	in.Buffer(make([]byte, 1<<20), 1<<26)
+	for in.Scan() {
+		if len(bytes.TrimSpace(in.Bytes())) == 0 {
+			continue
+		}
+		lc := &layRec{}
+		if err := json.Unmarshal(in.Bytes(), lc); err != nil {
+			fmt.Fprintln(os.Stderr, "bad case:", err)
+			os.Exit(3)
+		}
+		ch <- lc
+	}
+	close(ch)
+	wg.Wait()
+	fmt.Fprintf(os.Stderr, "STATS cases=%d evaluations=%d prints=%d compiles=%d harness=%d\n",
+		nCases.Load(), nEval.Load(), nPrint.Load(), nCompile.Load(), harnessErrs.Load())
 }
